@@ -216,6 +216,7 @@ func (pt *OutPort) Send(ip *FileIP) {
 	for _, rpt := range pt.RemotePorts {
 		Debug.Printf("Sending on out-port (%s) connected to in-port (%s)", pt.Name(), rpt.Name())
 		rpt.Send(ip)
+		vhook("ch.sent", pt.Name(), rpt.Name())
 	}
 }
 
@@ -454,6 +455,7 @@ func (pop *OutParamPort) Send(param string) {
 	for _, pip := range pop.RemotePorts {
 		Debug.Printf("Sending on out-param-port (%s) connected to in-param-port (%s)", pop.Name(), pip.Name())
 		pip.Send(param)
+		vhook("ch.sent", pop.Name(), pip.Name())
 	}
 }
 
